@@ -309,3 +309,300 @@ Proof.
   split; [apply dedup_z_nodup|]. intros l. unfold supported_languages. rewrite dedup_z_in, in_map_iff.
   split; intros (t & A & B); exists t; tauto.
 Qed.
+
+(* ---------------------------------------------------------------- histories on one storage *)
+From Coq Require Import Permutation.
+
+Lemma st_add_key_in t st k : In k (map fst (st_add t st)) <-> k = x_ref t \/ In k (map fst st).
+Proof.
+  induction st as [|[k' v] r IH]; cbn [st_add map fst In]; [intuition congruence|].
+  destruct (Z.eqb_spec k' (x_ref t)) as [E|Hne]; cbn [map fst In].
+  - subst k'. intuition congruence.
+  - rewrite IH. intuition congruence.
+Qed.
+
+Lemma st_add_entry t st e : In e (st_add t st) ->
+  In e st \/ (fst e = x_ref t /\ forall x, In x (snd e) -> x = t \/ exists e', In e' st /\ fst e' = fst e /\ In x (snd e')).
+Proof.
+  induction st as [|[k v] r IH]; cbn [st_add In].
+  - intros [<-|[]]. right. cbn. split; [reflexivity|]. intros x [<-|[]]. now left.
+  - destruct (Z.eqb_spec k (x_ref t)) as [E|Hne]; cbn [In].
+    + intros [<-|Hi]; [|tauto]. right. cbn [fst snd]. split; [assumption|].
+      intros x Hx. apply in_app_iff in Hx as [Hx|[<-|[]]]; [|now left]. right. exists (k, v). cbn. tauto.
+    + intros [<-|Hi]; [tauto|]. destruct (IH Hi) as [A|[A B]]; [tauto|]. right. split; [assumption|].
+      intros x Hx. destruct (B x Hx) as [->|(e' & He' & Ef & Hx')]; [now left|]. right. exists e'. tauto.
+Qed.
+
+Lemma st_add_wf t st : st_wf st -> st_wf (st_add t st).
+Proof.
+  intros [Hnd Hk]. split.
+  - clear Hk. induction st as [|[k v] r IH]; cbn [st_add map fst]; [repeat constructor; intros []|].
+    cbn [map fst] in Hnd. apply NoDup_cons_iff in Hnd as [Hn Hnd].
+    destruct (Z.eqb_spec k (x_ref t)) as [E|Hne]; cbn [map fst]; apply NoDup_cons_iff.
+    + tauto.
+    + split; [|now apply IH]. rewrite st_add_key_in. intros [->|Hi]; [now apply Hne|contradiction].
+  - intros e He x Hx. apply st_add_entry in He as [He|[Ef B]]; [now apply (Hk e He)|].
+    destruct (B x Hx) as [->|(e' & He' & Ef' & Hx')]; [now rewrite Ef|]. rewrite <- Ef'. now apply (Hk e' He').
+Qed.
+
+Lemma st_add_all_texts t st : Permutation (all_texts (st_add t st)) (all_texts st ++ [t]).
+Proof.
+  unfold all_texts. induction st as [|[k v] r IH]; cbn [st_add flat_map snd app]; [apply Permutation_refl|].
+  destruct (Z.eqb k (x_ref t)); cbn [flat_map snd].
+  - rewrite <- !app_assoc. apply Permutation_app_head. apply Permutation_app_comm.
+  - rewrite <- app_assoc. now apply Permutation_app_head.
+Qed.
+
+Lemma st_touch_all_texts r st : all_texts (st_touch r st) = all_texts st.
+Proof.
+  unfold st_touch, all_texts. destruct (existsb _ st); [reflexivity|].
+  rewrite flat_map_app. cbn. now rewrite app_nil_r.
+Qed.
+
+Lemma st_touch_wf r st : st_wf st -> st_wf (st_touch r st).
+Proof.
+  intros [Hnd Hk]. unfold st_touch. destruct (existsb (fun e => fst e =? r) st) eqn:E; [now split|]. split.
+  - rewrite map_app. cbn [map fst].
+    assert (Hn : ~ In r (map fst st)).
+    { intros Hi. apply in_map_iff in Hi as (e & Ef & He).
+      assert (X : existsb (fun e0 => fst e0 =? r) st = true) by (apply existsb_exists; exists e; split; [assumption|now apply Z.eqb_eq]).
+      congruence. }
+    clear E Hk. induction st as [|e s IH]; cbn [map app]; [repeat constructor; intros []|].
+    cbn [map] in Hnd, Hn. apply NoDup_cons_iff in Hnd as [Hn' Hnd]. apply NoDup_cons_iff. split.
+    + rewrite in_app_iff. cbn [In]. intros [A|[A|[]]]; [contradiction|]. apply Hn. left. now symmetry.
+    + apply IH; [assumption|]. intros A. apply Hn. now right.
+  - intros e He x Hx. apply in_app_iff in He as [He|[<-|[]]]; [now apply (Hk e He)|contradiction].
+Qed.
+
+Lemma st_touch_all_wf refs : forall st, st_wf st -> st_wf (fold_left (fun s r => st_touch r s) refs st).
+Proof. induction refs as [|r rs IH]; intros st H; cbn [fold_left]; [assumption|]. apply IH. now apply st_touch_wf. Qed.
+
+Lemma st_touch_all_texts_all refs : forall st, all_texts (fold_left (fun s r => st_touch r s) refs st) = all_texts st.
+Proof. induction refs as [|r rs IH]; intros st; cbn [fold_left]; [reflexivity|]. now rewrite IH, st_touch_all_texts. Qed.
+
+Lemma st_wf_nil : st_wf [].
+Proof. split; [constructor|intros e []]. Qed.
+
+Lemma lstep_wf st o : st_wf st -> st_wf (lstep st o).
+Proof. destruct o; cbn [lstep]; intros H; [now apply st_add_wf|assumption|now apply st_touch_all_wf]. Qed.
+
+(* every storage a history of add / query operations can produce is well formed *)
+Theorem state_after_wf ops : st_wf (state_after ops).
+Proof.
+  unfold state_after. assert (G : forall ops st, st_wf st -> st_wf (fold_left lstep ops st)).
+  { induction ops0 as [|o r IH]; intros st H; cbn [fold_left]; [assumption|]. apply IH. now apply lstep_wf. }
+  apply G. apply st_wf_nil.
+Qed.
+
+(* ... and holds exactly the texts that were added (as a multiset): queries store or drop nothing *)
+Theorem state_after_holds_added ops : Permutation (all_texts (state_after ops)) (added ops).
+Proof.
+  unfold state_after.
+  assert (G : forall ops st, Permutation (all_texts (fold_left lstep ops st)) (all_texts st ++ added ops)).
+  { induction ops0 as [|o r IH]; intros st; cbn [fold_left]; [unfold added; cbn; now rewrite app_nil_r|].
+    eapply Permutation_trans; [apply IH|]. unfold added. cbn [flat_map]. fold (added r).
+    destruct o; cbn [lstep].
+    - rewrite app_assoc. apply Permutation_app_tail. apply st_add_all_texts.
+    - apply Permutation_refl.
+    - rewrite st_touch_all_texts_all. apply Permutation_refl. }
+  apply (G ops []).
+Qed.
+
+(* the side conditions of the filter theorems follow from well-formedness *)
+Lemma wf_keys_own_refs st : st_wf st ->
+  forall refs r e, In r refs -> In e st -> fst e = r -> forall x, In x (snd e) -> x_ref x = r.
+Proof. intros [_ Hk] refs r e _ He <- x Hx. now apply (Hk e He). Qed.
+
+Lemma wf_keys_unique st : st_wf st -> forall e e', In e st -> In e' st -> fst e = fst e' -> e = e'.
+Proof.
+  intros [Hnd _]. induction st as [|a s IH]; intros e e' He He' Ef; [contradiction|].
+  cbn [map] in Hnd. apply NoDup_cons_iff in Hnd as [Hn Hnd].
+  destruct He as [<-|He], He' as [<-|He']; [reflexivity| | |now apply IH].
+  - exfalso. apply Hn. rewrite Ef. now apply in_map.
+  - exfalso. apply Hn. rewrite <- Ef. now apply in_map.
+Qed.
+
+Theorem history_text_sound ops refs version langs widths lines both_key t :
+  In t (filter_texts (state_after ops) refs version langs widths lines both_key) ->
+  text_ok (state_after ops) refs version langs widths lines t.
+Proof. apply filter_texts_sound. apply wf_keys_own_refs. apply state_after_wf. Qed.
+
+(* ---- exactness without TextWidth / NumberOfLines: the answer is the selection, as a multiset *)
+Lemma perm_filter {A} (p : A -> bool) l l' : Permutation l l' -> Permutation (filter p l) (filter p l').
+Proof.
+  induction 1; cbn [filter].
+  - constructor.
+  - destruct (p x); [now constructor|assumption].
+  - destruct (p x), (p y); try apply Permutation_refl. apply perm_swap.
+  - eapply Permutation_trans; eassumption.
+Qed.
+
+Lemma filter_filter_and {A} (p q : A -> bool) l : filter p (filter q l) = filter (fun x => q x && p x) l.
+Proof.
+  induction l as [|x r IH]; [reflexivity|]. cbn [filter]. destruct (q x); cbn [filter andb]; [|assumption].
+  destruct (p x); now rewrite IH.
+Qed.
+
+Lemma filter_all_true {A} (p : A -> bool) l : (forall x, In x l -> p x = true) -> filter p l = l.
+Proof.
+  induction l as [|x r IH]; intros H; [reflexivity|]. cbn [filter]. rewrite (H x (or_introl eq_refl)).
+  f_equal. apply IH. intros y Hy. apply H. now right.
+Qed.
+
+Lemma filter_all_false {A} (p : A -> bool) l : (forall x, In x l -> p x = false) -> filter p l = [].
+Proof.
+  induction l as [|x r IH]; intros H; [reflexivity|]. cbn [filter]. rewrite (H x (or_introl eq_refl)).
+  apply IH. intros y Hy. apply H. now right.
+Qed.
+
+Lemma filter_or_disjoint {A} (p q : A -> bool) l :
+  (forall x, In x l -> p x = true -> q x = true -> False) ->
+  Permutation (filter (fun x => p x || q x) l) (filter p l ++ filter q l).
+Proof.
+  induction l as [|x r IH]; intros H; [constructor|]. cbn [filter].
+  assert (IH' : Permutation (filter (fun x => p x || q x) r) (filter p r ++ filter q r))
+    by (apply IH; intros y Hy; apply H; now right).
+  destruct (p x) eqn:Ep, (q x) eqn:Eq; cbn [orb app].
+  - exfalso. apply (H x (or_introl eq_refl) Ep Eq).
+  - now constructor.
+  - eapply Permutation_trans; [apply perm_skip, IH'|]. apply Permutation_middle.
+  - assumption.
+Qed.
+
+Lemma flat_map_filter_snd {K} (p : ltext -> bool) (gs : list (K * list ltext)) :
+  flat_map (fun g => filter p (snd g)) gs = filter p (flat_map snd gs).
+Proof. induction gs as [|g r IH]; [reflexivity|]. cbn [flat_map]. now rewrite filter_app, IH. Qed.
+
+Lemma add_group_perm x g : Permutation (flat_map snd (add_group x g)) (flat_map snd g ++ [x]).
+Proof.
+  induction g as [|[k' v] g' IH]; cbn [add_group flat_map snd app]; [apply Permutation_refl|].
+  destruct ((x_ref x =? fst k') && (x_lang x =? snd k')); cbn [flat_map snd].
+  - rewrite <- !app_assoc. apply Permutation_app_head. apply Permutation_app_comm.
+  - rewrite <- app_assoc. now apply Permutation_app_head.
+Qed.
+
+Lemma group_perm l : forall acc, Permutation (flat_map snd (group_by_ref_lang l acc)) (flat_map snd acc ++ l).
+Proof.
+  induction l as [|x r IH]; intros acc; cbn [group_by_ref_lang]; [now rewrite app_nil_r|].
+  eapply Permutation_trans; [apply IH|]. eapply Permutation_trans; [apply Permutation_app_tail, add_group_perm|].
+  rewrite <- app_assoc. apply Permutation_refl.
+Qed.
+
+Definition lookup (st : storage) (h : Z) : list ltext :=
+  match find (fun e => Z.eqb (fst e) h) st with Some e => snd e | None => [] end.
+
+Lemma st_wf_tail e st : st_wf (e :: st) -> st_wf st.
+Proof.
+  intros [Hnd Hk]. cbn [map] in Hnd. apply NoDup_cons_iff in Hnd as [_ Hnd]. split; [assumption|].
+  intros e' He'. apply Hk. now right.
+Qed.
+
+Lemma lookup_is_filter st h : st_wf st -> filter (fun t => x_ref t =? h) (all_texts st) = lookup st h.
+Proof.
+  unfold lookup, all_texts. induction st as [|e r IH]; intros Hwf; [reflexivity|].
+  cbn [flat_map find]. rewrite filter_app. pose proof Hwf as [Hnd Hk]. cbn [map] in Hnd. apply NoDup_cons_iff in Hnd as [Hn _].
+  destruct (Z.eqb_spec (fst e) h) as [E|Hne].
+  - rewrite filter_all_true, filter_all_false; [now rewrite app_nil_r| |].
+    + intros x Hx. apply in_flat_map in Hx as (e' & He' & Hx). apply Z.eqb_neq. intros Ex.
+      apply Hn. assert (Ef : fst e' = fst e) by (rewrite <- (Hk e' (or_intror He') x Hx); congruence).
+      rewrite <- Ef. now apply in_map.
+    + intros x Hx. apply Z.eqb_eq. rewrite <- E. apply (Hk e (or_introl eq_refl) x Hx).
+  - rewrite filter_all_false; [cbn [app]; apply IH; eapply st_wf_tail; eassumption|].
+    intros x Hx. apply Z.eqb_neq. rewrite (Hk e (or_introl eq_refl) x Hx). assumption.
+Qed.
+
+Lemma lookup_perm st hs : st_wf st -> NoDup hs ->
+  Permutation (flat_map (lookup st) hs) (filter (fun t => existsb (Z.eqb (x_ref t)) hs) (all_texts st)).
+Proof.
+  intros Hwf. induction hs as [|h r IH]; intros Hnd; cbn [flat_map existsb].
+  - rewrite filter_all_false; [constructor|reflexivity].
+  - apply NoDup_cons_iff in Hnd as [Hn Hnd]. apply Permutation_sym.
+    eapply Permutation_trans; [apply filter_or_disjoint|].
+    + intros x _ E1 E2. apply Z.eqb_eq in E1. apply existsb_exists in E2 as (y & Hy & Ey). apply Z.eqb_eq in Ey.
+      apply Hn. congruence.
+    + rewrite lookup_is_filter by assumption. apply Permutation_app_head. apply Permutation_sym. now apply IH.
+Qed.
+
+Lemma wf_ref_is_key st t : st_wf st -> In t (all_texts st) -> In (x_ref t) (map fst st).
+Proof.
+  intros [_ Hk] Ht. unfold all_texts in Ht. apply in_flat_map in Ht as (e & He & Ht).
+  rewrite (Hk e He t Ht). now apply in_map.
+Qed.
+
+Theorem filter_texts_exact st refs version langs both_key :
+  st_wf st -> NoDup refs ->
+  Permutation (filter_texts st refs version langs [] [] both_key)
+              (filter (text_selected st refs version langs) (all_texts st)).
+Proof.
+  intros Hwf Hnd. unfold filter_texts.
+  destruct (all_texts st) as [|a0 ar] eqn:Eall; [constructor|]. rewrite <- Eall. clear a0 ar Eall.
+  unfold filter_body. rewrite flat_map_filter_snd.
+  fold (lookup st). fold (eff_version st version).
+  set (texts0 := flat_map (lookup st) _).
+  set (texts1 := match langs with [] => texts0 | _ => _ end).
+  assert (P0 : Permutation texts0 (filter (sel_ref refs) (all_texts st))).
+  { subst texts0. destruct refs as [|r0 rs] eqn:Er.
+    - eapply Permutation_trans; [apply lookup_perm; [assumption|apply Hwf]|].
+      unfold sel_ref. rewrite !filter_all_true; [apply Permutation_refl|reflexivity|].
+      intros x Hx. apply existsb_exists. exists (x_ref x). split; [now apply wf_ref_is_key|apply Z.eqb_refl].
+    - rewrite <- Er in *. eapply Permutation_trans; [now apply lookup_perm|].
+      unfold sel_ref. rewrite Er. apply Permutation_refl. }
+  assert (E1 : texts1 = filter (sel_lang langs) texts0).
+  { subst texts1. unfold sel_lang. destruct langs; [now rewrite filter_all_true|reflexivity]. }
+  eapply Permutation_trans; [apply perm_filter, (group_perm texts1 [])|]. cbn [flat_map app].
+  rewrite E1. eapply Permutation_trans; [apply perm_filter, perm_filter, P0|].
+  rewrite !filter_filter_and. unfold text_selected.
+  erewrite filter_ext; [apply Permutation_refl|]. intros t. cbv beta. now rewrite andb_assoc.
+Qed.
+
+Theorem history_text_exact ops refs version langs both_key : NoDup refs ->
+  Permutation (filter_texts (state_after ops) refs version langs [] [] both_key)
+              (filter (text_selected (state_after ops) refs version langs) (all_texts (state_after ops))).
+Proof. intros H. apply filter_texts_exact; [apply state_after_wf|assumption]. Qed.
+
+Theorem history_languages_exact ops :
+  NoDup (supported_languages (state_after ops)) /\
+  forall l, In l (supported_languages (state_after ops)) <-> exists t, In t (added ops) /\ x_lang t = l.
+Proof.
+  destruct (supported_languages_exact (state_after ops)) as [A B]. split; [assumption|]. intros l. rewrite B.
+  pose proof (state_after_holds_added ops) as P.
+  split; intros (t & Ht & El); exists t; (split; [|assumption]).
+  - eapply Permutation_in; eassumption.
+  - eapply Permutation_in; [apply Permutation_sym|]; eassumption.
+Qed.
+
+(* ---- the answers depend on the stored multiset only (a cache, an index or the order of the keys is invisible) *)
+Definition ver_step (acc : option Z) (t : ltext) : option Z :=
+  match x_ver t, acc with
+  | Some v, Some a => Some (Z.max v a)
+  | Some v, None => Some v
+  | None, a => a
+  end.
+
+Lemma ver_step_comm a x y : ver_step (ver_step a x) y = ver_step (ver_step a y) x.
+Proof. unfold ver_step. destruct (x_ver x), (x_ver y), a; try reflexivity; f_equal; lia. Qed.
+
+Lemma fold_ver_perm l l' : Permutation l l' -> forall a, fold_left ver_step l a = fold_left ver_step l' a.
+Proof.
+  induction 1; intros a; cbn [fold_left]; [reflexivity|apply IHPermutation|now rewrite ver_step_comm|].
+  now rewrite IHPermutation1.
+Qed.
+
+Lemma max_version_perm st1 st2 : Permutation (all_texts st1) (all_texts st2) -> max_version st1 = max_version st2.
+Proof. intros P. unfold max_version. apply (fold_ver_perm _ _ P). Qed.
+
+Theorem answers_depend_on_multiset st1 st2 refs version langs bk1 bk2 :
+  st_wf st1 -> st_wf st2 -> Permutation (all_texts st1) (all_texts st2) -> NoDup refs ->
+  Permutation (filter_texts st1 refs version langs [] [] bk1) (filter_texts st2 refs version langs [] [] bk2) /\
+  (forall l, In l (supported_languages st1) <-> In l (supported_languages st2)).
+Proof.
+  intros W1 W2 P Hnd. split.
+  - eapply Permutation_trans; [now apply filter_texts_exact|].
+    eapply Permutation_trans; [|apply Permutation_sym; now apply filter_texts_exact].
+    erewrite filter_ext; [apply perm_filter, P|].
+    intros t. unfold text_selected, eff_version. now rewrite (max_version_perm _ _ P).
+  - intros l. destruct (supported_languages_exact st1) as [_ B1], (supported_languages_exact st2) as [_ B2].
+    rewrite B1, B2. split; intros (t & Ht & El); exists t; (split; [|assumption]).
+    + eapply Permutation_in; eassumption.
+    + eapply Permutation_in; [apply Permutation_sym|]; eassumption.
+Qed.
